@@ -14,4 +14,30 @@ theorem rowItems_present (k : Int) : rowItemsBranch (some k) = 1 := by
 theorem rowItems_absent : rowItemsBranch none = 0 := by
   simp [rowItemsBranch, LK.Py.truthy]
 
+/-! ### identifiers ↔ numbers -/
+
+/-- the row looked at: a given number (0 included) as it is; otherwise what the vocabulary answers for the identifier — and an
+    identifier the vocabulary does not know gives no number, hence no row (never some other row) -/
+theorem rowNumber_spec (number ident looked : LK.Py.V) :
+    rowNumber number ident looked = (match number with | some n => some n | none => looked) := by
+  cases number <;> cases looked <;> simp [rowNumber]
+
+theorem rowNumber_unknown (ident : LK.Py.V) : rowNumber none ident none = none := by simp [rowNumber]
+
+/-- `Vocabulary.number`: an unknown term raises exactly when `missing="error"`; otherwise the answer is `None` -/
+theorem vocabNumber_missing (b : Bool) : vocabNumberMissingBranch b = 0 ↔ b = true := by cases b <;> simp [vocabNumberMissingBranch]
+
+/-- `Vocabulary.numbers`: `KeyError` exactly when unknown terms are an error and there is one; with `missing="negative"` unknown terms
+    keep their negative marker -/
+theorem vocabNumbers_error_iff (missingIsError anyUnknown : Bool) :
+    vocabNumbersErrorBranch missingIsError anyUnknown = 0 ↔ (missingIsError = true ∧ anyUnknown = true) := by
+  cases missingIsError <;> cases anyUnknown <;> simp [vocabNumbersErrorBranch]
+
+/-- **negative numbers never index from the end:** `Vocabulary.term` rejects every negative number, and no other -/
+theorem vocabTerm_negative_iff (num : Int) : vocabTermNegativeBranch num = 0 ↔ num < 0 := by
+  simp [vocabTermNegativeBranch, LK.Py.lt, LK.Py.gt]
+
+/-- …and so does `Vocabulary.terms` for arrays -/
+theorem vocabTerms_negative_iff (b : Bool) : vocabTermsNegativeBranch b = 0 ↔ b = true := by cases b <;> simp [vocabTermsNegativeBranch]
+
 end LK.Gen.GuardsC01
